@@ -138,11 +138,11 @@ Definition slash_agree (st : St) (s : Sc) : bool :=
   if semi st && le then true else comment_agree (with_look s look).
 
 (* the XGo scanner, about to take a step from st, takes no branch that tpl/scanner lacks or
-   does differently: no keyword, no c"/py" string, no '~' '@' '**', no blank right after a
-   number's unit, and a comment on which the two scanComment variants agree *)
+   does differently: no keyword, no c"/py" string, no '~' '@' '**', and a comment on which the two
+   scanComment variants agree *)
 Definition xt_plain (st : St) : bool :=
   match unit st with
-  | _ :: _ => negb (is_blank_rune (semi st) (cur (sc st)))
+  | _ :: _ => true                     (* the pending unit is returned the same way by both *)
   | [] =>
     let s := skip_ws (S (length (rest (sc st)))) (semi st) (sc st) in
     let c := cur s in
